@@ -512,7 +512,7 @@ func init() {
 		ID:        "C03",
 		Level:     "exploration",
 		NeedsTerm: true,
-		Rule: "generated bind tables (1-8 bindings of length 1-4 over {a b c [ ESC C-x C-a M-d}, deliberate prefix overlap, 0-2 macros) installed in an emptied main keymap (emacs, vi-insert, vi-command) with probe commands; inputs are concatenations of segments (bound sequence; proper prefix + ruling-out key; garbage; two bound sequences back to back), delivered per byte or per segment; oracle = the probe invocation log (which binding, at which delivered chunk) equals an independent longest-match reference dispatcher. " +
+		Rule: "generated bind tables (1-8 bindings of length 1-4 over {a b c [ ESC C-x C-a M-d}, deliberate prefix overlap, 0-2 macros) installed in an emptied main keymap (emacs, vi-insert, vi-command) with probe commands; inputs are concatenations of segments (bound sequence; proper prefix + ruling-out key; garbage; two bound sequences back to back), delivered per byte or per segment; one case in four has dispatched keys with an earlier table in a first call before the table under test is put in place through Config.Bind and deletions from Config.Binds; oracle = the probe invocation log (which binding, at which delivered chunk) equals an independent longest-match reference dispatcher. " +
 			"Inputs the statement leaves open (left-over keys that themselves start a binding) are skipped and counted. distinct non-trivial = distinct (table shape, segment kinds, keymap) with >= 1 prefix overlap",
 		Assumptions: []string{"in vi keymaps segments containing ESC are delivered in one read (lone ESC is told apart by timing)", "Meta-d bindings are typed as ESC d", "local keymaps (vi-opp, visual, menu-select) are exercised by C01/C14/C15/C17 workloads, not by this table oracle"},
 		N: func(tier string) int {
